@@ -1,13 +1,15 @@
 ------------------------------ MODULE MCKV ------------------------------
 EXTENDS KV
 \* quick: three prefix-related keys, two values, two batches
-K3 == {<<1>>, <<1, 2>>, <<2>>}
-K4 == {<<1>>, <<1, 2>>, <<2>>, <<3, 3>>}
+\* symbols 1..4 stand for the bytes 00, 61, 62, ff (harness/cmd/kvdrv): <<2, 4>> = 61 ff is a prefix ending in ff with the
+\* live key <<3>> = 62 right behind its true upper bound
+K3 == {<<2>>, <<2, 4>>, <<3>>}
+K4 == {<<2>>, <<2, 4>>, <<3>>, <<1, 1>>}
 V2 == {0, 1}
 V3 == {0, 1, 2}
-P2 == {<<>>, <<1>>}
-P3 == {<<>>, <<1>>, <<3>>}
-S2 == {<<>>, <<2>>}
+P2 == {<<>>, <<2>>, <<2, 4>>}
+P3 == {<<>>, <<2>>, <<2, 4>>, <<1>>}
+S2 == {<<>>, <<4>>}
 B1 == {1}
 B2 == {1, 2}
 =============================================================================
